@@ -2,6 +2,7 @@
 import ast
 
 from .. import util
+from .. import interp as interp_mod
 from ..interp import Interp, Path, exc_value, is_exc, show, strip_sites, subterms, NONE, abs_value
 from .. import slots
 from ..report import Undecided, AnchorMissing
@@ -147,7 +148,7 @@ def meta_register(chk):
                     return running
                 return None
 
-            outs = Interp(prog, fi, sub_hook=sub_hook, decide=decide, unroll=2).run()
+            outs = Interp(prog, fi, sub_hook=sub_hook, decide=decide, unroll=2, inline=lambda f, ct: f.cls is fi.cls and not f.is_async and f.name != fi.name).run()
             chk.count(len(outs))
             label = "runner %s, runtime %s" % ("exists" if have_runner else "missing", "running" if running else "not running")
             for o in outs:
@@ -755,7 +756,14 @@ def sweep_rules(chk):
         evs = o.path.events
         if o.kind not in ("normal", "continue"):
             continue  # the cycle that leaves the loop (shutdown requested) need not adopt
-        steps = [(i, e[1]) for i, e in enumerate(evs) if e[0] == "call" and e[1][1][0] == "attr" and e[1][1][1] == SELF and e[1][1][2] not in (sweep_name, loop_fi.name)]
+        def looks_at_units(nm):
+            # (pure helpers of the loop -- the next delay, a log line -- are not the adopt step)
+            g = prog.lookup_method(cls, nm)
+            if g is None:
+                return True
+            return any((isinstance(x, (ast.Name, ast.Attribute)) and prog.resolve(g.module, x) == SERVICE_UNIT) or (isinstance(x, ast.Attribute) and x.attr in ("units", "start")) for x in ast.walk(g.node))
+
+        steps = [(i, e[1]) for i, e in enumerate(evs) if e[0] == "call" and e[1][1][0] == "attr" and e[1][1][1] == SELF and e[1][1][2] not in (sweep_name, loop_fi.name) and looks_at_units(e[1][1][2])]
         sleeps = [i for i, e in enumerate(evs) if e[0] == "call" and e[1][1] == ("glob", "ext:trio.sleep")]
         chk.count()
         if len(steps) != 1 or not sleeps or steps[0][0] > sleeps[0]:
@@ -765,6 +773,25 @@ def sweep_rules(chk):
             step_name = steps[0][1][1][2]
     if step_name is None:
         return
+    # a failure of the adopt step (a service whose flavour has no runner, a failing registration) ends the sweep BY
+    # RAISING: it is then a background failure that stops the runtime.  Swallowed, the sweep is gone while the daemon
+    # stays up -- services created later are never started and nobody notices
+    for label in ("AnyException", "OtherBase"):
+        e = interp_mod.REPRESENTATIVES[label]
+
+        def failing(it_, path, ct, node, e=e):
+            if ct[0] == "call" and ct[1] == ("attr", SELF, step_name):
+                return [("raise", e)]
+            return None
+
+        for o in Interp(prog, sw, unroll=1, call_hook=failing, inline=lambda f, ct: f.cls is cls and f.is_async and f is not sw and f.name == loop_fi.name).run():
+            chk.count()
+            if not any(ev[0] == "raised-at-call" for ev in o.path.events):
+                continue
+            if o.kind != "raise" or o.value != e:
+                chk.bad(rule, sw.qual, "a failure of the adopt step (%s) does not leave the service sweep by raising (path ends: %s): the sweep is gone while the runtime keeps running, so services created later are never started and the failure never stops the daemon" % (label, show(o.value) if o.kind == "raise" else o.kind), node=sw.node, stmt="sweep-failure-swallowed", input=label)
+                ok = False
+                break
     st = prog.lookup_method(cls, step_name)
     # the adopt step: every path examines every unit; not running => started exactly once with the meta runner
     seen = set()
@@ -919,3 +946,8 @@ def run(chk):
     chk.guard("O3.10", META, mode_switch_atomic, chk)
     chk.guard("O3.6", SERVICE_UNIT, service_typestate, chk)
     chk.guard("O3.7", SERVICE_RUNNER, sweep_rules, chk)
+    # "adopt still does not raise while the runtime is finishing its payloads' cleanup": the runner mapping is only
+    # emptied after close-all has closed and joined the runners (O2.2, shared with C02)
+    from . import c02
+
+    chk.guard("O2.1", META, c02.supervisor, chk)
